@@ -21,6 +21,10 @@ let rec int_of_nat = function M.O -> 0 | M.S n -> 1 + int_of_nat n
 
 let fe l = M.fe_of_limbs_m (limbs_of l)
 let show_limbs (l : ZZ.t list) : string = match l with [] -> "-" | _ -> String.concat "," (List.map hex_of_z l)
+let lm s = limbs_of s
+let show_jacl ((x, y), z) = show_limbs x ^ " " ^ show_limbs y ^ " " ^ show_limbs z
+(* the limb-level scalar multiplications are slower: run them on every third case *)
+let limb_pipeline (id : string) = (int_of_string id) mod 3 = 0
 let show_pt (x, y) = "ok " ^ hex_of_z x ^ " " ^ hex_of_z y
 let show_jac ((x, y), z) = "ok " ^ hex_of_z x ^ " " ^ hex_of_z y ^ " " ^ hex_of_z z
 
@@ -36,15 +40,23 @@ let handle (f : string array) : string =
   | "PA" ->
     let (((((p, n), b), gx), gy), bs) = M.params_model in
     Printf.sprintf "ok %s %s %s %s %s %s" (hex_of_z p) (hex_of_z n) (hex_of_z b) (hex_of_z gx) (hex_of_z gy) (ZZ.to_string bs)
-  | "OC" -> if M.isOnCurve_model (z_of_hex f.(2)) (z_of_hex f.(3)) then "ok 1" else "ok 0"
+  (* public methods: the F_p-level model, then "L" and the same method on the limb-level pipeline *)
+  | "OC" ->
+    let b2s b = if b then "ok 1" else "ok 0" in
+    b2s (M.isOnCurve_model (z_of_hex f.(2)) (z_of_hex f.(3))) ^ " L " ^ b2s (M.isOnCurve_limbs (z_of_hex f.(2)) (z_of_hex f.(3)))
   | "AD" -> show_pt (M.add_model (z_of_hex f.(2)) (z_of_hex f.(3)) (z_of_hex f.(4)) (z_of_hex f.(5)))
+            ^ " L " ^ show_pt (M.add_limbs (z_of_hex f.(2)) (z_of_hex f.(3)) (z_of_hex f.(4)) (z_of_hex f.(5)))
   | "DB" -> show_pt (M.double_model (z_of_hex f.(2)) (z_of_hex f.(3)))
+            ^ " L " ^ show_pt (M.double_limbs (z_of_hex f.(2)) (z_of_hex f.(3)))
   | "SM" -> show_outcome show_pt (M.scalarMult_model (z_of_hex f.(2)) (z_of_hex f.(3)) (bytes_of_hex f.(4)))
+            ^ (if limb_pipeline f.(1) then " L " ^ show_outcome show_pt (M.scalarMult_limbs (z_of_hex f.(2)) (z_of_hex f.(3)) (bytes_of_hex f.(4))) else "")
   | "BM" -> show_outcome show_pt (M.scalarBaseMult_model (bytes_of_hex f.(2)))
+            ^ (if limb_pipeline f.(1) then " L " ^ show_outcome show_pt (M.scalarBaseMult_limbs (bytes_of_hex f.(2))) else "")
   | "GK" ->
-    show_outcome (fun ((d, (x, y)), consumed) ->
-        Printf.sprintf "ok %s %s %s %d" (hex_of_z d) (hex_of_z x) (hex_of_z y) (int_of_nat consumed))
-      (M.generateKey_model (bytes_of_hex f.(2)))
+    let show = show_outcome (fun ((d, (x, y)), consumed) ->
+        Printf.sprintf "ok %s %s %s %d" (hex_of_z d) (hex_of_z x) (hex_of_z y) (int_of_nat consumed)) in
+    show (M.generateKey_model (bytes_of_hex f.(2)))
+    ^ (if limb_pipeline f.(1) then " L " ^ show (M.generateKey_limbs (bytes_of_hex f.(2))) else "")
   (* limb functions: the value-level model AND the limb-level model (exact words) *)
   | "FM" -> "ok " ^ hex_of_z (M.mul_model (fe f.(2)) (fe f.(3))) ^ " " ^ show_limbs (M.sm2P256Mul_limbs (limbs_of f.(2)) (limbs_of f.(3)))
   | "FS" -> "ok " ^ hex_of_z (M.square_model (fe f.(2))) ^ " " ^ show_limbs (M.sm2P256Square_limbs (limbs_of f.(2)))
@@ -53,12 +65,17 @@ let handle (f : string array) : string =
   | "FF" -> "ok " ^ hex_of_z (M.fromBig_model (z_of_hex f.(2))) ^ " " ^ show_limbs (M.sm2P256FromBig_limbs (z_of_hex f.(2)))
   | "FT" -> "ok " ^ hex_of_z (fe f.(2)) ^ " " ^ hex_of_z (M.sm2P256ToBig_limbs (limbs_of f.(2)))
   | "FR" -> "ok " ^ hex_of_z (M.reduceDegree_model (limbs_of f.(2))) ^ " " ^ show_limbs (M.sm2P256ReduceDegree_limbs (limbs_of f.(2)))
+  (* point functions: values by the F_p-level model, then "L" and the exact words by the limb-level functions *)
   | "PD" -> show_jac (M.pointDouble_model ((fe f.(2), fe f.(3)), fe f.(4)))
+            ^ " L " ^ show_jacl (M.pointDouble_limbs ((lm f.(2), lm f.(3)), lm f.(4)))
   | "PM" -> show_jac (M.pointAddMixed_model ((fe f.(2), fe f.(3)), fe f.(4)) (fe f.(5)) (fe f.(6)))
+            ^ " L " ^ show_jacl (M.pointAddMixed_limbs ((lm f.(2), lm f.(3)), lm f.(4)) (lm f.(5)) (lm f.(6)))
   | "PP" -> show_jac (M.pointAdd_model ((fe f.(2), fe f.(3)), fe f.(4)) ((fe f.(5), fe f.(6)), fe f.(7)))
+            ^ " L " ^ show_jacl (M.pointAdd_limbs ((lm f.(2), lm f.(3)), lm f.(4)) ((lm f.(5), lm f.(6)), lm f.(7)))
   | "PS" ->
     let (j, y2) = M.pointSub_model ((fe f.(2), fe f.(3)), fe f.(4)) ((fe f.(5), fe f.(6)), fe f.(7)) in
-    show_jac j ^ " " ^ hex_of_z y2
+    let (jl, y2l) = M.pointSub_limbs ((lm f.(2), lm f.(3)), lm f.(4)) ((lm f.(5), lm f.(6)), lm f.(7)) in
+    show_jac j ^ " " ^ hex_of_z y2 ^ " L " ^ show_jacl jl ^ " " ^ show_limbs y2l
   | "WN" ->
     show_outcome (fun ds -> "ok " ^ (match ds with [] -> "-" | _ -> String.concat "," (List.map ZZ.to_string ds)))
       (M.sm2GenrateWNaf_model (bytes_of_hex f.(2)))
